@@ -777,6 +777,9 @@ def run(tier, seed):
     # model's for all inputs; a failure is reported when the check finishes unless a stage below finds a
     # concrete failing input
     gen_tie.gate(chk, ['script_platform_guard'], gate)
+    # fourth round: one turn of the loop of parse_env_file (split at the first '=', reserved-key rule) regenerated from
+    # the source and proved equal to Model/EnvFileLine.v's line_step, the step of Model/Scripts.v's parse_lines
+    gen_tie.gate(chk, ['env_file_line'], gate, family="glue")
     checker = "make -C coq Properties/C18.vo && coqc gen/assump_C18.v (Print Assumptions)"
     binary, err = vlib.build_harness()
     if binary is None:
